@@ -26,7 +26,8 @@ GROUPS = {
     'peaks_border': ['find_peaks'],
     'segm': ['detect_sources', 'deblend_sources'],
     'catalog': ['SourceCatalog'],
-    'catalog_hostile': ['SourceCatalog'],      # scenes with tiny / corner-peaked / ragged / peak-masked / fully masked segments
+    'catalog_hostile': ['SourceCatalog'],
+    'catalog_border': ['SourceCatalog'],       # no margin, sources up to the frame edge, localbkg_width = 0      # scenes with tiny / corner-peaked / ragged / peak-masked / fully masked segments
     'profiles': ['profiles'],
     'model': ['make_model_image'],
     'psf': ['PSFPhotometry'],
@@ -36,7 +37,7 @@ CLASSES = ['translate:aperture', 'translate:catalog', 'transpose:catalog', 'tran
            'translate:starfinders', 'transpose:aperture', 'translate:segm', 'translate:profiles',
            'transpose:centroids', 'translate:model', 'transpose:profiles', 'translate:psf',
            'translate:catalog_hostile', 'transpose:catalog_hostile', 'translate:centroids',
-           'translate:starfinders_border', 'translate:peaks_border']
+           'translate:starfinders_border', 'translate:peaks_border', 'translate:catalog_border']
 CLASSES = list(dict.fromkeys(CLASSES))     # unique, order kept
 
 RULE = ('one case = one random scene (3-8 elliptical Gaussians with random orientation and unequal fluxes + '
@@ -394,12 +395,14 @@ def build_case(case):
     # segments / masks that force the documented fallback branches (failed quadratic fit -> barycentre, Kron radius
     # below the minimum, fully masked or single-pixel source): always in the *_hostile classes, 30 % elsewhere
     hostile = group == 'catalog_hostile' or (group in ('catalog', 'aperture') and rng.random() < 0.3)
-    border = group.endswith('_border')
+    border = group.endswith('_border') and group != 'catalog_border'
     scale = gen.draw_scale(rng)                      # generic axis (i): magnitude of every value-like input
     layout2 = [None, None, None, 'fortran', 'negstride', 'sliced', 'bigendian'][int(rng.integers(0, 7))]
     degenerate = [None] * 24 + ['nothing_detected', 'all_masked']
     degenerate = degenerate[int(rng.integers(0, len(degenerate)))]
     kw = dict(margin=0, edge=1.5) if border else {}
+    if group == 'catalog_border':
+        kw = dict(margin=0, edge=4.0)
     scene = gen.make_scene(rng, flavour=flav, nonfinite=nonfinite, nsrc=nsrc, hostile=hostile, scale=scale, **kw)
     scene['axes'] = dict(scale=scale, layout2=layout2, degenerate=degenerate, border=border)
     if degenerate == 'all_masked' and group in ('aperture', 'catalog', 'catalog_hostile', 'profiles'):
@@ -414,6 +417,9 @@ def build_case(case):
                 scene['opts'][ep.name]['moved'] = md_
                 scene['opts'][ep.name]['holder'] = epm.Holder()
         o_ = scene['opts'][ep.name]
+        if group == 'catalog_border':
+            o_.update(border_mode=True, localbkg_width=0, detcat=False,
+                      apermask_method='correct' if rng.random() < 0.7 else o_['apermask_method'])
         if border:
             # a "keep the N brightest" selection is not local: with rows legitimately missing near the border of one
             # frame the selected sets differ
